@@ -86,8 +86,10 @@ def yaml_text(obj, style=0):
     1: one JSON flow document, 2: block with a comment and document start marker."""
     if obj is None:
         return ['', '# nothing here\n', '---\n', 'null\n', '~\n'][style % 5]
-    if not isinstance(obj, dict) or not obj or style % 3 == 1:
+    if not isinstance(obj, dict) or not obj:
         return json.dumps(obj) + '\n'
+    if style % 3 == 1:      # one flow mapping (json.dumps would turn a non-str key into a string)
+        return '{' + ', '.join(f'{yaml_key(k)}: {json.dumps(v)}' for k, v in obj.items()) + '}\n'
     head = '---\n# generated\n' if style % 3 == 2 else ''
     return head + ''.join(f'{yaml_key(k)}: {json.dumps(v)}\n' for k, v in obj.items())
 
